@@ -13,7 +13,7 @@ CLAIMS = {
    "Trusted: go/ssa, call graph; the audited rows of the tables are the intended decisions (each carries its reason). Not decided: Myers diff results, line-number arithmetic as computed values, equivalence of the final device configuration.",
    "DESIGN.md section 8.8"),
  "C02": ("other",
-   "guard-set comparison, mark/flag/side discipline, loop-state, counter and must-call analyses on go/ssa of the Cisco planner, merger and parser (packages cisco, ios), table-driven; constant agreement of the IOS numbering",
+   "guard-set comparison, mark/flag/side discipline, loop-state, counter and must-call analyses on go/ssa of the Cisco planner, merger and parser (packages cisco, ios), table-driven; constant agreement of the IOS numbering; path rule for the dropped-move returns of moveACL (controlled by equality of the two printed lines)",
    "Does NOT decide convergence (needs a device model). Decides the same structural necessary conditions as C01 for IOS (change-list agreement; audited decisions incl. permit/deny block marking, insideBlock, VRF alignment and interface checks; mark, flag and mode-variable discipline; phases on every path; loop state incl. the sticky all-lines-so-far flags; block numbers from a running counter; symmetric predicates; normaliser constants incl. sequence-number stripping) and additionally that the resequence step, the multipliers of inserted and deleted line numbers and the too-many-lines bound are one integer, and that moves are one joined delete+add line.",
    "Trusted: go/ssa, call graph; the audited rows of the tables. Not decided: the arithmetic before*10000+i+1 on run-time values, the filtering behaviour of the resulting ACLs.",
    "DESIGN.md section 8.8"),
